@@ -61,6 +61,21 @@ Theorem C09_never_panics : forall w fields args, run w fields args <> RParse PPa
 Proof. exact run_never_panics. Qed.
 Print Assumptions C09_never_panics.
 
+(** One FlagSet, several Parse calls (each in its own world: the environment and the files may
+    change in between): the first call is exactly [run] — to which [C09_priority] applies when it
+    succeeds — and every later call is refused ("must be called once") and leaves the object, in
+    particular the struct's fields, unchanged.  Hence a Parse that returns nil is always the first
+    one on its FlagSet, and its values come from the sources of THAT call only. *)
+Theorem C09_parse_once : forall w ob args, ob_parsed ob = true -> parse_call w ob args = (ob, PAlready).
+Proof. exact parse_call_again. Qed.
+Print Assumptions C09_parse_once.
+
+Theorem C09_history : forall w fields ob a cs,
+  new_object (w_set w) fields = Some ob ->
+  exists r0, run w fields a = RParse r0 /\ history ob ((w, a) :: cs) = r0 :: repeat PAlready (length cs).
+Proof. exact history_first. Qed.
+Print Assumptions C09_history.
+
 (** Tags: both syntaxes split into name / default / usage at the first two separators (extra
     separators belong to the usage); an empty name means the lower-cased field name; a nested
     struct contributes its fields with the group path extended by its name and '_'.
